@@ -1,0 +1,23 @@
+//go:build verif
+
+package rpc
+
+import "reflect"
+
+// VerifClosureCount returns the number of closures that are currently registered
+func (r Registry[R, T]) VerifClosureCount() int {
+	r.local.wrapper.closuresLock.Lock()
+	defer r.local.wrapper.closuresLock.Unlock()
+
+	return len(r.local.wrapper.closures)
+}
+
+// VerifConvertValue exposes convertValue
+func VerifConvertValue(srcVal reflect.Value, dstType reflect.Type) (reflect.Value, error) {
+	return convertValue(srcVal, dstType)
+}
+
+// VerifFindMethod exposes findMethodByFunctionCallPathRecursively
+func VerifFindMethod(root interface{}, functionCallPath string) (reflect.Value, error) {
+	return findMethodByFunctionCallPathRecursively(root, functionCallPath)
+}
